@@ -22,9 +22,23 @@ EXPLANATION = (
 )
 
 
-def check(chk, repo):
-    chk.explanation = EXPLANATION
-    rep = Rep(chk, repo)
+class _Only:
+    """A reporter that passes on only the listed rules, under a prefix (the scan rules as a premise elsewhere)."""
+
+    def __init__(self, rep, pre, only):
+        self.rep, self.pre, self.only = rep, pre, only
+
+    def fn(self, rule, *a, **k):
+        if self.only is None or rule in self.only:
+            self.rep.fn(self.pre + rule, *a, **k)
+
+    def ev(self, rule, *a, **k):
+        if self.only is None or rule in self.only:
+            self.rep.ev(self.pre + rule, *a, **k)
+
+
+def check_scan(chk, rep0, repo, pre="", only=None):
+    rep = _Only(rep0, pre, only) if (pre or only is not None) else rep0
     sup = repo.need_method("SupervisedOPF", "predict")
     semi = repo.need_method("SemiSupervisedOPF", "predict")
     rep.fn("SCAN-shared", semi, "SemiSupervisedOPF.predict is SupervisedOPF.predict", semi.fq == sup.fq,
@@ -155,6 +169,8 @@ def check(chk, repo):
             okr = lc[1] == ("attr", ("iter", gens[0][0], gens[0][1]), "predicted_label")
     rep.fn("SCAN-result", fn, "the result lists the query nodes' labels in query order", okr,
            f"returns '{show(rets[0].value)[:120] if rets else '?'}'")
+    if only is not None:
+        return
     run_kinds(rep, w)
     from ..common import check_model_premises
     from ..rules_premise import check_entry_unconditional
@@ -172,3 +188,9 @@ def check(chk, repo):
     chk.floor("best-so-far scans in SupervisedOPF.predict", len(scans), 1)
     chk.undecided.append("equality with the exhaustive scan as a semantic fact (needs sortedness, implied by C01)")
     chk.assumptions.append("idx_nodes is sorted by non-decreasing cost (C01 removal rule) and has n_nodes entries")
+
+
+def check(chk, repo):
+    chk.explanation = EXPLANATION
+    rep = Rep(chk, repo)
+    check_scan(chk, rep, repo)
